@@ -20,6 +20,7 @@ import MosnVerif.Model.CheckedWire
 import MosnVerif.Lemmas.H2Alloc
 import MosnVerif.Lemmas.HpackNoPanic
 import MosnVerif.Lemmas.StreamAlloc
+import MosnVerif.Lemmas.CheckedMatchEq
 /-!
 # C08 — malformed input is contained (property theorems only)
 
@@ -816,6 +817,18 @@ theorem matchers_total (name : String) (m : MosnVerif.Model.CheckedGo.Bytes → 
 theorem xfactory_result_faithful (r : MR) : errToMR (MosnVerif.Gen.C08Matchers.xfactory_result r) = r ∧
     MosnVerif.Gen.C08Matchers.xfactory_noMatcher = Err.failed := by
   cases r <;> decide
+
+/-- **gen_matchers_eq_model** (one matcher semantics for C07 and C08): for every registered matcher and EVERY byte string
+the regenerated checked-access program answers exactly what the hand-written matcher model of C07 (Model/Match.lean:
+the functions `match_monotone`, `scope_monotone`, `select_*` are about) answers, and never `oob`; the two tables have the
+same names (`genMatcherOf_eq`, `genScopeOf_eq` in Lemmas/CheckedMatchEq: C07's `matcherOf` / `scopeOf` ARE the regenerated
+functions). -/
+theorem gen_matchers_eq_model (name : String) (g : MosnVerif.Model.CheckedGo.Bytes → Chk MR)
+    (m : List UInt8 → MosnVerif.Model.Match.MR) (hg : matcherOf name = some g)
+    (hm : MosnVerif.Model.Match.matcherOf name = some m) (b : List UInt8) :
+    g b = .ok (MosnVerif.Lemmas.CheckedMatchEq.toMR (m b)) ∧
+    MosnVerif.Lemmas.CheckedMatchEq.genMatcherOf name = MosnVerif.Model.Match.matcherOf name :=
+  ⟨MosnVerif.Lemmas.CheckedMatchEq.gen_eq name g m hg hm b, MosnVerif.Lemmas.CheckedMatchEq.genMatcherOf_eq name⟩
 
 -- non-vacuity: all seven names are matchers; boundary answers of the regenerated programs
 example : matcherNames.all (fun n => (matcherOf n).isSome) = true := by decide
